@@ -161,6 +161,44 @@ def cases(rnd):
     ic = table2([[2, 0, 1], [2, 0, 1]], 'float')
     add('gather2d_float_index', {'rows': [[0, 0, 0], [3, 3, 3]], 'cols': [[2, 0, 1], [2, 0, 1]]}, {'x': x3},
         tget(atom_tensor('x', xs3), (slice(None), slice(None), ir, ic)), {'x': x3})
+    # ---- writes through structured views (basic-index views, permutations)
+    xw = rnd_array(rnd, (2, 3, 6, 7))
+    bw = atom_tensor('x', (2, 3, 6, 7))
+    vw = tget(bw, (slice(None), slice(None), slice(1, 5)))
+    tset(vw, (slice(None), slice(None), 0), t_bin('+', tget(vw, (slice(None), slice(None), 0)), tget(vw, (slice(None), slice(None), 3))))
+    add('view_write_a', {}, {'x': xw}, bw, {'x': xw})
+    bw2 = atom_tensor('x', (2, 3, 6, 7))
+    qw = rnd_array(rnd, (2, 3, 3))
+    ww = t_transpose(tget(bw2, (slice(None), slice(None), slice(0, None, 2))), 2, 3)      # (2,3,7,3)
+    tset(ww, (slice(None), slice(None), 4, slice(None)), atom_tensor('q', (2, 3, 3)))
+    add('view_write_b', {}, {'x': xw, 'q': qw}, bw2, {'x': xw, 'q': qw})
+    bw3 = atom_tensor('x', (2, 3, 6, 7))
+    v3 = tget(bw3, (slice(None), 1, None, slice(2, None), slice(None, -1)))               # (2,1,4,6)
+    prims.inplace_write(None, v3, t_bin('*', v3, 3))
+    add('view_write_c', {}, {'x': xw}, bw3, {'x': xw})
+    # ---- shape / order methods added for refactor coverage
+    TM = prims.TMETH
+    xs5 = (2, 3, 4, 5)
+    x5 = rnd_array(rnd, xs5)
+    a5 = lambda: atom_tensor('x', xs5)
+    add('m_permute', {'perm': [0, 2, 3, 1]}, {'x': x5}, t_contiguous(TM['permute'](None, a5(), 0, 2, 3, 1)), {'x': x5})
+    add('m_unsqueeze', {'dim': -2}, {'x': x5}, TM['unsqueeze'](None, a5(), -2), {'x': x5})
+    x51 = rnd_array(rnd, (2, 1, 4, 1))
+    add('m_squeeze', {'dim': 1}, {'x': x51}, TM['squeeze'](None, atom_tensor('x', (2, 1, 4, 1)), 1), {'x': x51})
+    add('m_squeeze', {'dim': None}, {'x': x51}, TM['squeeze'](None, atom_tensor('x', (2, 1, 4, 1))), {'x': x51})
+    add('m_flip', {'dims': [3]}, {'x': x5}, prims.t_flip(a5(), [3]), {'x': x5})
+    add('m_flip', {'dims': [2, -1]}, {'x': x5}, prims.t_flip(a5(), [2, -1]), {'x': x5})
+    for sh in (1, -2, 7, 0):
+        add('m_roll', {'shifts': sh, 'dims': 3}, {'x': x5}, prims.t_roll(a5(), sh, 3), {'x': x5})
+    add('m_roll', {'shifts': [1, -1], 'dims': [2, 3]}, {'x': x5}, prims.t_roll(a5(), [1, -1], [2, 3]), {'x': x5})
+    add('m_chunk', {'chunks': 2, 'dim': 2, 'pick': 1}, {'x': x5}, prims.t_chunk(a5(), 2, 2)[1], {'x': x5})
+    add('m_split', {'size': 2, 'dim': 3, 'pick': 2}, {'x': x5}, prims.t_split(a5(), 2, 3)[2], {'x': x5})
+    add('m_split', {'size': [1, 3], 'dim': 2, 'pick': 1}, {'x': x5}, prims.t_split(a5(), [1, 3], 2)[1], {'x': x5})
+    add('m_narrow', {'dim': 3, 'start': 1, 'length': 3}, {'x': x5}, TM['narrow'](None, a5(), 3, 1, 3), {'x': x5})
+    add('m_flatten', {'start': 1, 'end': 2}, {'x': x5}, TM['flatten'](None, a5(), 1, 2), {'x': x5})
+    x6 = rnd_array(rnd, (1, 3, 1, 5))
+    add('m_expand', {'sizes': [2, 2, 3, 4, 5]}, {'x': x6}, t_contiguous(TM['expand'](None, atom_tensor('x', (1, 3, 1, 5)), 2, 2, 3, 4, 5)), {'x': x6})
+    add('m_expand', {'sizes': [-1, -1, 2, -1]}, {'x': x6}, t_contiguous(TM['expand'](None, atom_tensor('x', (1, 3, 1, 5)), -1, -1, 2, -1)), {'x': x6})
     # ---- pooling / interpolation
     xs4 = (1, 2, 4, 6)
     x4 = rnd_array(rnd, xs4)
